@@ -1,4 +1,4 @@
-use super::{Call, CallError, Name, Value};
+use super::{Call, CallError, Name, SassString, Value};
 use crate::ordermap::OrderMap;
 use crate::value::ListSeparator;
 use crate::{Error, Invalid, ScopeRef, css};
@@ -42,6 +42,27 @@ impl CallArgs {
             named,
             trailing_comma,
         })
+    }
+
+    /// A trailing comma means something (an empty last argument) only
+    /// in a call to a function named `var`.
+    pub(crate) fn trailing_comma_only_for_var(
+        mut self,
+        function: &SassString,
+    ) -> Self {
+        if !function
+            .single_raw()
+            .is_some_and(|name| name.eq_ignore_ascii_case("var"))
+        {
+            self.trailing_comma = false;
+        }
+        self
+    }
+
+    /// Forget a trailing comma (in a mixin call, where it has no meaning).
+    pub(crate) fn no_trailing_comma(mut self) -> Self {
+        self.trailing_comma = false;
+        self
     }
 
     /// Create a new `CallArgs` from one single unnamed argument.
